@@ -22,8 +22,8 @@ def jobs():
     d = ["ENV_ALLOC_MAY_FAIL"] + CUT_CLIENT
     js = []
     for v, what in ((0, "append"), (1, "insert")):
-        js.append(Job("scenario-build-%s" % what, "C18/c18.c", "c18_build", UNITS, extra_src=EXTRA, defines=d + ["BUILD_VARIANT=%d" % v, "ENV_REALLOC_BYTELOOP"],
-                      remove_bodies=RB_CLIENT, unwind=24, flags=FS, timeout=1800, est_gb=6,
+        js.append(Job("scenario-build-%s" % what, "C18/c18.c", "c18_build", UNITS, extra_src=EXTRA, defines=d + ["BUILD_VARIANT=%d" % v],
+                      remove_bodies=RB_CLIENT, unwind=24, unwindset={"coap_insert_option": 3, "coap_add_option_internal": 3}, flags=FS, timeout=1800, est_gb=6,
                       desc="PDU building with forced growth (%s path): any subset of allocations fails" % what, bounds={"scenario": "build-" + what}))
     for name, entry, desc in (("optlist", "c18_optlist", "URI to optlist helpers"),
                               ("send", "c18_send", "coap_send_internal of a CON"), ("strings", "c18_strings", "strings / error response derived from a request")):
